@@ -390,3 +390,34 @@ package exec
 //@   ensures  in-range: forall(i, 0, len(shards), 0 <= shards[i] && shards[i] < nshard)
 //@   modifies shards[:]
 //@   loop 1 invariant forall(j, 0, range_idx, shards[j] == int(rowHash(f, j, 0) % uint32(nshard)) && 0 <= shards[j] && shards[j] < nshard)
+
+// ---- C17: executor-side readers ----
+
+//@ func exec.(*multiReader).Read (ctx, out) (n, err)
+//@   requires m != nil && forall(i, 0, len(m.q), m.q[i] != nil) && out.len >= 0
+//@   may_panic
+//@   ensures  bounds: 0 <= n && n <= out.len
+//@   ensures  no-row-dropped: rowsSupplied == old(rowsSupplied) + n
+//@   ensures  sticky: implies(old(m.err) != nil, n == 0 && err == old(m.err))
+//@   ensures  eof-means-all-done: implies(err == sliceio.EOF && old(m.err) == nil, len(m.q) == 0)
+//@   ensures  error-recorded: implies(err != nil && err != sliceio.EOF, m.err == err)
+//@   modifies m.q, m.err, rowsSupplied, sawRowsWithEOF, SReader.nreads, SReader.lastN, SReader.lastErr, ColMem
+//@   loop 1 invariant m != nil && m.err == old(m.err) && m.err == nil && rowsSupplied == old(rowsSupplied) && forall(i, 0, len(m.q), m.q[i] != nil)
+
+//@ spec func bufOK(q taskBuffer, out frame.Frame) bool = forall(a, 0, len(q), len(q[a]) >= 0) && forall(a, 0, len(q), forall(b, 0, len(q[a]), wf(q[a][b]) && crossOK(out, q[a][b]) && compatible(out, q[a][b]) && sizesAgree(out, q[a][b])))
+
+//@ func exec.(*taskBufferReader).Read (ctx, out) (n, err)
+//@   requires r != nil && wf(out) && distinctCols(out) && len(out.data) >= 1 && bufOK(r.q, out) && 0 <= r.i && r.i <= len(r.q) && 0 <= r.j && 0 <= r.k
+//@   requires cursor-valid: implies(r.i < len(r.q), r.j <= len(r.q[r.i]) && implies(r.j < len(r.q[r.i]), r.k <= r.q[r.i][r.j].len))
+//@   flag nlarith
+//@   panics_if r.closed
+//@   ensures  eof-at-end: implies(err != nil, err == sliceio.EOF && n == 0 && r.i == len(r.q))
+//@   ensures  cursor-in-buffer: implies(err == nil, r.i < len(r.q) && r.j < len(r.q[r.i]) && r.k <= r.q[r.i][r.j].len && n >= 0 && r.k - n >= 0)
+//@   ensures  count: implies(err == nil, n == min(out.len, r.q[r.i][r.j].len - (r.k - n)))
+//@   ensures  rows-from-buffer-in-order: implies(err == nil, let(src, r.q[r.i][r.j], let(k0, r.k - n, forall(c, 0, len(out.data), forall(x, out.off, out.off + n, ColMem[out.data[c].ptr][x] == old(ColMem[src.data[c].ptr][src.off + k0 + (x - out.off)]))))))
+//@   ensures  only-those-rows: forall(c, 0, len(out.data), forall(x, implies(x < out.off || x >= out.off + n, ColMem[out.data[c].ptr][x] == old(ColMem[out.data[c].ptr][x]))))
+//@   ensures  buffer-not-modified: r.q == old(r.q)
+//@   modifies r.i, r.j, r.k, ColMem
+//@   loop 1 invariant a1: r.q == old(r.q) && 0 <= r.i && 0 <= r.j && 0 <= r.k && ColMem == old(ColMem) && r.i <= len(r.q)
+//@   loop 1 invariant a2: implies(r.i < len(r.q), r.j <= len(r.q[r.i]))
+//@   loop 1 invariant a3: implies(r.i < len(r.q) && r.j < len(r.q[r.i]), r.k <= r.q[r.i][r.j].len)
